@@ -82,7 +82,7 @@ type Ctx struct {
 // RoundTrip has handed Request and Response back to its caller, in which case
 // the caller of acquire must not touch either and must not unlock.
 func (ctx *Ctx) acquire() bool {
-	ctx.lck.Lock()
+	ctx.lock()
 
 	if ctx.done {
 		ctx.lck.Unlock()
@@ -96,7 +96,7 @@ func (ctx *Ctx) acquire() bool {
 // to this stream on this connection. A finished Ctx goes back to a pool, so a
 // pointer held past that point can end up pointing at somebody else's request.
 func (ctx *Ctx) acquireFor(c *Conn, id uint32) bool {
-	ctx.lck.Lock()
+	ctx.lock()
 
 	if ctx.done || ctx.conn.Load() != c || atomic.LoadUint32(&ctx.streamID) != id {
 		ctx.lck.Unlock()
@@ -110,10 +110,30 @@ func (ctx *Ctx) release() {
 	ctx.lck.Unlock()
 }
 
+// lock takes the Ctx, and makes sure the wait for it ends. The Ctx is held by
+// one of the connection's loops, and the one thing a loop can be stuck in with
+// a Ctx in hand is a write to a socket whose other end has stopped reading.
+// Nobody waiting here can do anything about that: not RoundTrip, whose caller
+// was promised an answer within MaxResponseTime, and not the read loop, which
+// has every other request's response to deliver. So a wait gives the write
+// that is in progress a limited time to finish; if it cannot, it fails, and
+// the connection goes the way of any connection whose socket has failed.
+func (ctx *Ctx) lock() {
+	if ctx.lck.TryLock() {
+		return
+	}
+
+	if c := ctx.conn.Load(); c != nil {
+		c.boundWrite()
+	}
+
+	ctx.lck.Lock()
+}
+
 // takeBack blocks until the connection is not using the Ctx and stops it from
 // using it again. After it returns, Request and Response are the caller's.
 func (ctx *Ctx) takeBack() {
-	ctx.lck.Lock()
+	ctx.lock()
 	ctx.done = true
 	ctx.lck.Unlock()
 
